@@ -11,17 +11,25 @@
 (*   trim   [start, end] (voxels)           adapt_to_trimming               *)
 (*   points [pts = {[t, pos]}, r] (lattice) clean_by_distance_to_points     *)
 (*   mask   [tl, masks[t] = [shape, zero]]  clean_by_tomo_mask              *)
-(* The state machine is one step per case: Init picks the case, Apply      *)
-(* computes the result; the clauses C09_* are invariants of the result and  *)
-(* are phrased with the *removal witnesses* (which face / which point /     *)
-(* which voxel), not with the operators that compute the result.           *)
+(* A case carries a sequence of 1..3 such calls (field ops) that are       *)
+(* applied one after the other to the same list with the SAME dimension    *)
+(* table / point table / mask list: every call is judged with the original *)
+(* argument values, whatever the earlier calls did.  Init picks the case,  *)
+(* each Apply step performs the next call on the survivors of the previous *)
+(* one; the clauses C09_* are invariants of every step and are phrased     *)
+(* with the *removal witnesses* (which face / which point / which voxel),  *)
+(* not with the operators that compute the result.                         *)
 (***************************************************************************)
 EXTENDS Integers, Sequences, FiniteSets, TLC, Json
 
-CONSTANTS Cases        \* set of cases [id, ps, dims, op]
+CONSTANTS Cases        \* set of cases [id, ps, dims, ops]
 
-VARIABLES cs, done, res      \* the case, whether the filter has been applied, its result
-vars == <<cs, done, res>>
+VARIABLES cs,       \* the case
+          i,        \* number of calls performed
+          prev,     \* the list the last call was applied to
+          res       \* its result (res.ps = the current list)
+vars == <<cs, i, prev, res>>
+done == i > 0
 
 U == 8
 Axes == 1..3
@@ -82,16 +90,23 @@ Result(c) == LET kept == SelectSeq(c.ps, LAMBDA p : Survives(c, p))
                   amb |-> Ambiguous(c)]
 
 -----------------------------------------------------------------------------
-(* 2. One step per case *)
+(* 2. One step per call of the case *)
 
-Init == cs \in Cases /\ done = FALSE /\ res = [ps |-> <<>>, status |-> <<>>, amb |-> FALSE]
-Apply == ~done /\ done' = TRUE /\ res' = Result(cs) /\ UNCHANGED cs
+\* the call about to be made / just made, as a single-call case on the list it is applied to
+CallOn(ps, k) == [id |-> cs.id, ps |-> ps, dims |-> cs.dims, op |-> cs.ops[k]]
+
+Init == cs \in Cases /\ i = 0 /\ prev = <<>> /\ res = [ps |-> cs.ps, status |-> <<>>, amb |-> FALSE]
+Apply == /\ i < Len(cs.ops) /\ ~res.amb
+         /\ i' = i + 1
+         /\ prev' = res.ps
+         /\ res' = Result(CallOn(res.ps, i + 1))
+         /\ UNCHANGED cs
 Spec == Init /\ [][Apply]_vars
 
 -----------------------------------------------------------------------------
 (* 3. The clauses, on the result of every case *)
 
-Case == cs
+Case == CallOn(prev, i)
 Orig(id) == CHOOSE p \in { Case.ps[k] : k \in DOMAIN Case.ps } : p.id = id
 KeptIds == Ids(res.ps)
 
@@ -140,11 +155,11 @@ C09_WholeImpliesCenter ==
                 /\ InsideOOB([Case EXCEPT !.op.kind = "center"], Case.ps[k])
                 /\ (Case.op.box >= 2 => InsideOOB([Case EXCEPT !.op.box = Case.op.box - 2], Case.ps[k]))
 
-TypeOK == done \in BOOLEAN /\ (~done => res.ps = <<>>)
+TypeOK == i \in 0..Len(cs.ops) /\ (~done => res.ps = cs.ps)
 
 -----------------------------------------------------------------------------
-\* emission: one record per case
+\* emission: one record per call
 PJ(ps) == [k \in DOMAIN ps |-> <<ps[k].id, ps[k].t, ps[k].x[1], ps[k].x[2], ps[k].x[3], ps[k].s[1], ps[k].s[2], ps[k].s[3]>>]
 Emit == \/ ~done
-        \/ PrintT(<<"RES", ToJson([id |-> Case.id, ps |-> PJ(res.ps), status |-> res.status, amb |-> res.amb])>>)
+        \/ PrintT(<<"RES", ToJson([id |-> cs.id, step |-> i, ps |-> PJ(res.ps), status |-> res.status, amb |-> res.amb])>>)
 =============================================================================
